@@ -1,4 +1,5 @@
 import Bw.Pipeline
+import Bw.Lemmas.TagFuel
 /-! # C04 — no crash or hang on any input
 
 Every model function is total (Lean's termination checker; the tag scanner runs on explicit fuel).
@@ -109,6 +110,17 @@ theorem registered_parsers_known :
     simp only at hp ⊢
     split <;> simp_all
   exact hk _ (hall _ this)
+
+/-- **the tag scanner always terminates by exhausting the text, never the fuel**: any fuel above the text
+    length yields the same tag list (each step consumes at least one char) -/
+theorem scan_terminates (cfg : Tag.Cfg) (t : Text) (fuel : Nat) (h : t.length < fuel) :
+    Tag.scan cfg fuel 0 t = Tag.scanAll cfg t := Tag.scanAll_eq cfg t fuel h
+
+/-- a recognised tag always consumes input (so the scanner's cursor strictly advances) -/
+theorem tags_consume (cfg : Tag.Cfg) (s : Text) :
+    (∀ as r, Tag.parseStart cfg s = some (as, r) → r.length < s.length) ∧
+    (∀ r, Tag.parseEnd s = some r → r.length < s.length) :=
+  ⟨fun as r h => Tag.parseStart_lt cfg s as r h, fun r h => Tag.parseEnd_lt s r h⟩
 
 /-- unbalanced tags, unknown files, read errors and faults are *values* of the pipeline: it always
     returns (an error is a readable message and exit status 1, never a crash) -/
